@@ -77,6 +77,84 @@ def rule_d1(F):
             r.inst("value arm records edge for constants and context", {"ok": val_ok})
             if not val_ok:
                 r.bad(b.path, "value edge", relfile(b.file), arm["line"], "a reference to a constant / context value is resolved without recording the dependency edge")
+            # every successful exit of the arm (a plain value, a field, a method call on the value) lies behind the edge for BOTH kinds
+            NEED = {"Constant", "Context"}
+
+            def kinds_of(stmt):
+                """value kinds for which this statement records the edge"""
+                e = hir.strip(stmt.get("e") if stmt.get("k") == "semi" else stmt)
+                if not isinstance(e, dict):
+                    return set()
+                if e.get("k") == "mcall" and e["m"] == "add_edge" and edge_ok(e):
+                    return set(NEED)
+                if e.get("k") == "if" and hir.strip(e["cond"]).get("k") == "let":
+                    if any(x["m"] == "add_edge" and edge_ok(x) for x in hir.nodes(e["then"], "mcall")):
+                        alts = hir.pat_alternatives(hir.strip(e["cond"])["pat"])
+                        return {k for k in NEED if any(("ValueKind::" + k) in a for a in alts)}
+                if e.get("k") == "match":
+                    out = set()
+                    for arm_ in e["arms"]:
+                        if any(x["m"] == "add_edge" and edge_ok(x) for x in hir.nodes(arm_["body"], "mcall")):
+                            alts = hir.pat_alternatives(arm_["pat"])
+                            out |= {k for k in NEED if any(("ValueKind::" + k) in a for a in alts)} or (set(NEED) if any(a.strip() in ("_",) for a in alts) else set())
+                    return out
+                return set()
+
+            def is_exit(e):
+                for n in hir.walk(e):
+                    if n.get("k") == "struct" and (hir.res_def({"res": n.get("path") or {}}) or "").split("::")[-1] in ("Method", "Value") and "ResolvedPath" in (hir.res_def({"res": n.get("path") or {}}) or ""):
+                        return n
+                    if n.get("k") == "call" and "ResolvedPath::" in (hir.call_def(n) or "") and (hir.call_def(n) or "").split("::")[-1] in ("Method", "Value"):
+                        return n
+                return None
+            exits = []
+
+            def visit(e, cov):
+                e = hir.strip(e)
+                if not isinstance(e, dict):
+                    return
+                k = e.get("k")
+                if k == "block":
+                    cov = set(cov)
+                    for st_ in e.get("stmts") or []:
+                        inner = st_.get("e") if st_.get("k") == "semi" else (st_.get("init") if st_.get("k") == "letstmt" else st_)
+                        if st_.get("k") == "letstmt" and st_.get("els") is not None:
+                            visit(st_["els"], cov)
+                        got = kinds_of(st_)
+                        if got:
+                            cov |= got
+                            continue
+                        if inner is not None:
+                            visit(inner, cov)
+                    if e.get("expr") is not None:
+                        visit(e["expr"], cov)
+                    return
+                if k in ("if", "match", "loop", "while", "ret", "closure"):
+                    for key in ("cond", "then", "else", "e", "body"):
+                        if isinstance(e.get(key), dict):
+                            visit(e[key], cov)
+                    for arm_ in e.get("arms") or []:
+                        visit(arm_["body"], cov)
+                    if k == "ret" and e.get("e") is not None and is_exit(e["e"]) is not None and hir.strip(e["e"]).get("k") not in ("block", "if", "match"):
+                        exits.append((is_exit(e["e"]), set(cov)))
+                    return
+                x = is_exit(e)
+                if x is not None:
+                    exits.append((x, set(cov)))
+            visit(arm["body"], set())
+            seen_lines = set()
+            for x, cov in exits:
+                ln = x.get("line")
+                if ln in seen_lines:
+                    continue
+                seen_lines.add(ln)
+                r.inst("value arm exit line %s" % ln, {"line": ln, "edge_recorded_for": sorted(cov)})
+                if not NEED <= cov:
+                    r.bad(b.path, "successful exit without the dependency edge for %s" % "/".join(sorted(NEED - cov)), relfile(b.file), ln,
+                          "a path rooted at a %s value resolves successfully on this exit without the edge item -> value having been recorded: what the reference graph decides "
+                          "(evaluation order of constants, 'constant uses context') does not see this use (e.g. a method call on a context variable inside a constant)" % " / ".join(sorted(NEED - cov)).lower())
+            if not exits:
+                r.missing("successful exits (ResolvedPath::Value / ::Method) of the value arm")
     if not (fn_ok or val_ok):
         r.missing("Function/Value arms in resolve_expression_path")
     for fn in ("function", "filter_map", "constant", "test"):
